@@ -37,6 +37,15 @@ class SymSeries(SymArray):
             if c.denominator == 1 and int(c) in self.labels:
                 return self.d[self.labels.index(int(c))]
             raise KeyError(int(c) if c.denominator == 1 else float(c))
+        if (isinstance(i, SymArray) and i.dtype_tag in ("i8", "i4")) or (isinstance(i, list) and i and all(is_intlike(x) and not isinstance(x, bool) for x in i)):
+            # an integer array / list selects BY LABEL on a Series (positions only under the default labels)
+            want = [int(concrete(x)) for x in (i.d if isinstance(i, SymArray) else i)]
+            idx = []
+            for w in want:
+                if w not in self.labels:
+                    raise KeyError(f"{w} not in index")
+                idx.append(self.labels.index(w))
+            return SymSeries([self.d[j] for j in idx], self.dtype_tag, [self.labels[j] for j in idx])
         pos = SymArray([Q(j) for j in range(len(self.d))], "i8")[i]
         if isinstance(pos, SymArray):
             idx = [int(p) for p in pos.d]
